@@ -9,9 +9,7 @@ shutil.copy(os.path.join(out, 'variant_%s.diff' % v), os.path.join(sd, 'patch.di
 shutil.copy(os.path.join(out, 'demo_%s.py' % v), os.path.join(sd, 'demo.py'))
 for f in glob.glob(os.path.join(out, '*.py')):
     b = os.path.basename(f)
-    if not b.startswith('demo_') or b == 'demo_stubs.py' or b == 'demo_common.py':
-        shutil.copy(f, os.path.join(sd, b))
-    elif b in ('demo_stubs.py',):
+    if b not in ('demo_A.py', 'demo_B.py', 'demo_C.py'):
         shutil.copy(f, os.path.join(sd, b))
 if os.path.exists(os.path.join(out, 'NOTES.md')):
     shutil.copy(os.path.join(out, 'NOTES.md'), os.path.join(sd, 'NOTES_all.md'))
